@@ -10,6 +10,7 @@ CONSTANTS
  ModeSet = {"on"}
  TokenSet = {"absent", "fresh", "stale", "ghost"}
  LocalSet = {TRUE}
+ LeakSet = {FALSE}
  MaxFaults = 1
 INVARIANTS TypeOK NoGrandchild NoChildWhenOff ChildOnlyIfNeeded AtMostOneAcquire HolderKeepsToken OnlyApplicationsAcquire
 CHECK_DEADLOCK FALSE
